@@ -14,9 +14,12 @@ package integration
 //                      reader buffers equal to the datagram size.
 
 import (
+	"bytes"
 	"context"
+	"encoding/hex"
 	"encoding/json"
 	"fmt"
+	"io"
 	"net"
 	"os"
 	"strings"
@@ -25,11 +28,13 @@ import (
 	"time"
 
 	"github.com/caddyserver/caddy/v2"
+
+	"github.com/mholt/caddy-l4/layer4"
 )
 
 // ---------------------------------------------------------------- shared evaluation
 func vCheckExpectations(sc *vScenario) (key, detail string, in map[string]any) {
-	r := vRecOf(sc.sid)
+	r := sc.rec()
 	r.mu.Lock()
 	defer r.mu.Unlock()
 	in = map[string]any{"scenario": sc.sid, "desc": sc.desc, "seed": vSeed()}
@@ -73,7 +78,7 @@ func vCheckExpectations(sc *vScenario) (key, detail string, in map[string]any) {
 }
 
 func vWaitRecorders(sc *vScenario, byData bool, d time.Duration) bool {
-	r := vRecOf(sc.sid)
+	r := sc.rec()
 	for t0 := time.Now(); time.Since(t0) < d; time.Sleep(time.Millisecond) {
 		r.mu.Lock()
 		all := true
@@ -187,10 +192,11 @@ func (tm vTimed) build(idx, try, port int) *vScenario {
 }
 
 func (tm vTimed) client(sc *vScenario) error {
-	c, err := vPipeDial(fmt.Sprintf("s:%d", sc.port))
+	c, id, err := vPipeDialID(fmt.Sprintf("s:%d", sc.port))
 	if err != nil {
 		return err
 	}
+	sc.rk = sc.sid + "#" + id
 	defer c.Close()
 	go func() { // nothing is written back, but never let a write block the server
 		p := make([]byte, 4096)
@@ -386,6 +392,15 @@ func TestVerifC01UDP(t *testing.T) {
 		if i%4 == 0 {
 			sizes[0] = chunk // a first datagram of exactly one prefetch chunk
 		}
+		// a burst of 6..20 datagrams that all arrive before the handler's first read (the handler is
+		// delayed by the throttle handler's latency): more than the association's queue holds
+		burst := i%5 == 1
+		if burst {
+			sizes = sizes[:0]
+			for k := 6 + rng.Intn(15); k > 0; k-- {
+				sizes = append(sizes, []int{1, 10, 100, 600, 1200}[rng.Intn(5)])
+			}
+		}
 		total := 0
 		for _, s := range sizes {
 			total += s
@@ -407,6 +422,13 @@ func TestVerifC01UDP(t *testing.T) {
 		case 1:
 			route["handle"] = []any{map[string]any{"handler": "throttle", "read_bytes_per_second": 1e12, "read_burst_size": 1 << 24}, rec}
 		}
+		if burst {
+			k = 0
+			if rng.Bool() {
+				k = 1
+			}
+			route["handle"] = []any{map[string]any{"handler": "throttle", "latency": "150ms"}, rec}
+		}
 		if k > 0 || rng.Bool() {
 			route["match"] = []any{map[string]any{"verif_need": map[string]any{"sid": sc.sid, "k": k, "yes": true, "peek": rng.Intn(3) == 0, "pos": 0}}}
 		}
@@ -416,7 +438,7 @@ func TestVerifC01UDP(t *testing.T) {
 		for _, s := range sizes {
 			ss = append(ss, fmt.Sprint(s))
 		}
-		sc.desc = fmt.Sprintf("udp datagrams=[%s] reader_buffer=%d matcher_k=%d", strings.Join(ss, ","), rs, k)
+		sc.desc = fmt.Sprintf("udp datagrams=[%s] reader_buffer=%d matcher_k=%d burst_before_first_read=%v", strings.Join(ss, ","), rs, k, burst)
 		vScMu.Lock()
 		vScs[sc.sid] = sc
 		vScMu.Unlock()
@@ -461,4 +483,128 @@ func TestVerifC01UDP(t *testing.T) {
 	_ = caddy.Stop()
 	out.Stat("udp_scenarios", len(all))
 	out.Stat("udp_failed", nfail)
+}
+
+// ---------------------------------------------------------------- two-layer routing under fragmentation
+// A route with a stream-replacing non-terminal handler (proxy_protocol: cx.Wrap) followed by a
+// route whose matcher looks at the INNER stream. The outer first message is split at every
+// position, so that in one matching pass the first route still needs more data while the second
+// one answers "no" on the outer bytes; after the first route has replaced the stream the second
+// one must be asked again. A stream that reaches the inner route when delivered whole must reach
+// it in every fragmentation (and its handler must read the whole inner stream). All connections
+// of one header kind go through one provisioned config.
+type vPrefix struct {
+	Hex string `json:"hex,omitempty"`
+	pre []byte
+}
+
+func (*vPrefix) CaddyModule() caddy.ModuleInfo {
+	return caddy.ModuleInfo{ID: "layer4.matchers.verif_prefix", New: func() caddy.Module { return new(vPrefix) }}
+}
+
+func (m *vPrefix) Provision(caddy.Context) error {
+	b, err := hex.DecodeString(m.Hex)
+	m.pre = b
+	return err
+}
+
+func (m *vPrefix) Match(cx *layer4.Connection) (bool, error) {
+	p := make([]byte, len(m.pre))
+	if _, err := io.ReadFull(cx, p); err != nil {
+		return false, err
+	}
+	return bytes.Equal(p, m.pre), nil
+}
+
+var vPrefixOnce sync.Once
+
+func TestVerifC01Layered(t *testing.T) {
+	out := vOpen()
+	defer out.Close()
+	vRegister()
+	vPrefixOnce.Do(func() { caddy.RegisterModule(&vPrefix{}) })
+	prop := os.Getenv("VERIF_PROP")
+	if prop == "" {
+		prop = "C01"
+	}
+	rng := vNewRng(vSeed() + 4242)
+	servers := map[string]any{}
+	type run struct {
+		sc    *vScenario
+		kind  string
+		split int
+	}
+	var runs []run
+	for hk, k := range vHdrKinds {
+		sid := fmt.Sprintf("ly%d", hk)
+		payload := vStream(1+rng.Intn(250), 50+rng.Intn(400))
+		for bytes.Equal(payload[:4], k.hdr[:4]) {
+			payload = payload[1:]
+		}
+		raw := append(append([]byte{}, k.hdr...), payload...)
+		routes := []any{
+			map[string]any{
+				"match":  []any{map[string]any{"verif_prefix": map[string]any{"hex": hex.EncodeToString(k.hdr)}}},
+				"handle": []any{map[string]any{"handler": "proxy_protocol"}},
+			},
+			map[string]any{
+				"match":  []any{map[string]any{"verif_prefix": map[string]any{"hex": hex.EncodeToString(payload[:4])}}},
+				"handle": []any{map[string]any{"handler": "verif_rec", "sid": sid, "id": "term", "terminal": true, "read_size": 512}},
+			},
+		}
+		port := 60000 + hk
+		servers[sid] = map[string]any{"listen": []string{fmt.Sprintf("verifpipe/s:%d", port)}, "routes": routes}
+		base := &vScenario{sid: sid, port: port, raw: raw, routes: routes, segName: "layered", echoPos: len(raw),
+			expect: []vExpect{{id: "term", comp: "layered", want: payload, terminal: true}}}
+		vScMu.Lock()
+		vScs[sid] = base
+		vScMu.Unlock()
+		for split := 0; split <= len(k.hdr)+4; split++ { // 0: delivered whole
+			cp := *base
+			if split > 0 {
+				cp.segs = []int{split}
+			}
+			cp.desc = fmt.Sprintf("layered header=%s (%d bytes) inner=%d bytes first segment=%d bytes (0: whole)", k.name, len(k.hdr), len(payload), split)
+			runs = append(runs, run{&cp, k.name, split})
+		}
+	}
+	vLoadServers(t, servers)
+	var wg sync.WaitGroup
+	sem := make(chan struct{}, 16)
+	for _, r := range runs {
+		wg.Add(1)
+		go func(r run) {
+			defer wg.Done()
+			sem <- struct{}{}
+			defer func() { <-sem }()
+			_, _ = vRunClient(r.sc)
+			vWaitRecorders(r.sc, false, 3*time.Second)
+		}(r)
+	}
+	wg.Wait()
+	wholeOK := map[string]bool{}
+	nfail := 0
+	for i, r := range runs {
+		key, detail, in := vCheckExpectations(r.sc)
+		if r.split == 0 {
+			wholeOK[r.kind] = key == ""
+		}
+		if key != "" {
+			nfail++
+			rec := r.sc.rec()
+			rec.mu.Lock()
+			ran := rec.ran["term"]
+			rec.mu.Unlock()
+			in["first_segment"] = r.split
+			k := prop + ":layered:" + key[strings.LastIndex(key, ":")+1:]
+			if ran == 0 && r.split > 0 && wholeOK[r.kind] {
+				k = prop + ":layered:rejected-in-fragments"
+				detail = "the inner route is reached when the stream is delivered whole but not when the outer header arrives in two fragments: " + detail
+			}
+			out.Fail(k, detail, in)
+		}
+		out.Case(fmt.Sprintf("CE2E %d %d", 300000+i, len(r.sc.raw)), "layered/"+r.kind, r.split > 0, map[string]any{"desc": r.sc.desc, "failed": key != ""})
+	}
+	out.Stat("layered_connections", len(runs))
+	out.Stat("layered_failed", nfail)
 }
